@@ -1434,3 +1434,32 @@ MUTANTS += [
  dict(id='F74-confirm-on-every-finalisation', props=['C06'], expect='R-UNCONFIRMED-NOT-CLAIMED/unconfirmed/release/',
       edits=[(MS, '\t\t\tif ok {\n\t\t\t\t// Complete: FileEnd is in and every frame it announced was processed, so\n\t\t\t\t// the chunk that was handed in for comparison was found good or replaced.\n\t\t\t\tstate.sidecar.Confirm()\n\t\t\t}\n', '\t\t\tstate.sidecar.Confirm()\n')]),
 ]
+
+# --- round 10 (DESIGN 8.20) ---
+MUTANTS += [
+ dict(id='R10-benign-read-checks-as-switch', props=['C02', 'C01', 'C04'], expect='SILENT',
+      edits=[(MS, '\t\t\t\tn, err := readAtWithPool(transferCtx, f, offset, buf[:chunkLen])\n\t\t\t\tif err != nil && err != io.EOF && err != io.ErrUnexpectedEOF {\n\t\t\t\t\treleaseChunkBuf(bufPool, buf, err)\n\t\t\t\t\tsetErr(fmt.Errorf("failed to read file %s: %w", state.item.RelPath, err))\n\t\t\t\t\treturn\n\t\t\t\t}\n\t\t\t\tif n != int(chunkLen) {\n',
+                   '\t\t\t\tchunk := buf[:chunkLen]\n\t\t\t\tn, err := readAtWithPool(transferCtx, f, offset, chunk)\n\t\t\t\tif err != nil && err != io.EOF && err != io.ErrUnexpectedEOF {\n\t\t\t\t\treleaseChunkBuf(bufPool, buf, err)\n\t\t\t\t\tsetErr(fmt.Errorf("failed to read file %s: %w", state.item.RelPath, err))\n\t\t\t\t\treturn\n\t\t\t\t}\n\t\t\t\tif n != len(chunk) {\n')]),
+]
+QS2 = 'internal/transferquic/quic.go'
+CPOOL = 'internal/transfer/chunkpool.go'
+MUTANTS += [
+ dict(id='R10-benign-open-stream-checks-context-first', props=['C03'], expect='SILENT',
+      edits=[(QS2, '\tstream, err := conn.OpenStreamSync(ctx)\n\tif err != nil {\n\t\treturn nil, fmt.Errorf("failed to open QUIC stream: %w", err)\n\t}\n', '\tif err := ctx.Err(); err != nil {\n\t\treturn nil, fmt.Errorf("failed to open QUIC stream: %w", err)\n\t}\n\tstream, err := conn.OpenStreamSync(ctx)\n\tif err != nil {\n\t\treturn nil, fmt.Errorf("failed to open QUIC stream: %w", err)\n\t}\n')]),
+ dict(id='R10-benign-entry-info-renamed-everywhere', props=['C05', 'C13', 'C06'], expect='SILENT',
+      edits=[(MAN, '\t\t\t\t// Get file info\n\t\t\t\tinfo, err := d.Info()\n', '\t\t\t\t// Get file info\n\t\t\t\tentryInfo, err := d.Info()\n'),
+             (MAN, '\t\t\t\tsize := info.Size()\n\t\t\t\tif d.IsDir() {\n\t\t\t\t\tsize = 0\n\t\t\t\t}\n\n\t\t\t\titem := FileItem{\n\t\t\t\t\tRelPath: filepath.ToSlash(fullRelPath),\n\t\t\t\t\tSize:    size,\n\t\t\t\t\tModTime: info.ModTime().Unix(),', '\t\t\t\tsize := entryInfo.Size()\n\t\t\t\tif d.IsDir() {\n\t\t\t\t\tsize = 0\n\t\t\t\t}\n\n\t\t\t\titem := FileItem{\n\t\t\t\t\tRelPath: filepath.ToSlash(fullRelPath),\n\t\t\t\t\tSize:    size,\n\t\t\t\t\tModTime: entryInfo.ModTime().Unix(),'),
+             (MAN, '\t\t\t\t\tmanifest.FileCount++\n\t\t\t\t\tmanifest.TotalBytes += info.Size()\n\t\t\t\t}\n\n\t\t\t\treturn nil\n\t\t\t})', '\t\t\t\t\tmanifest.FileCount++\n\t\t\t\t\tmanifest.TotalBytes += entryInfo.Size()\n\t\t\t\t}\n\n\t\t\t\treturn nil\n\t\t\t})')]),
+ dict(id='R10-benign-expiry-from-fresh-now', props=['C14'], expect='SILENT',
+      edits=[(SESS, '\t\texpiresAt = now.Add(s.ttl)\n', '\t\texpiresAt = time.Now().Add(s.ttl)\n')]),
+ dict(id='R10-expiry-rounded', props=['C14'], expect='R-EXPIRY-EXACT/expiry-exact/',
+      edits=[(SESS, '\t\texpiresAt = now.Add(s.ttl)\n', '\t\texpiresAt = now.Add(s.ttl).Round(time.Minute)\n')]),
+ dict(id='R10-benign-pool-size-in-a-local', props=['C19', 'C04'], expect='SILENT',
+      edits=[(CPOOL, '\tpool := bufpool.New(int(chunkSize))\n', '\tsize := int(chunkSize)\n\tpool := bufpool.New(size)\n')]),
+ dict(id='R10-benign-undecodable-frame-answered', props=['C10'], expect='SILENT',
+      edits=[(SRV, '\t\t\tlogger.Warn("invalid JSON envelope", "error", err, "peer_id", peerID)\n\t\t\tcontinue\n', '\t\t\tlogger.Warn("invalid JSON envelope", "error", err, "peer_id", peerID, "bytes", len(message))\n\t\t\tcontinue\n')]),
+ dict(id='R10-turn-secret-trimmed', props=['C16'], expect='R-TURN-USER-VERBATIM/turn-user/',
+      edits=[(ICE, '\t\t\tpassword = pwd\n', '\t\t\tpassword = strings.TrimSpace(pwd)\n')]),
+ dict(id='R10-report-skipped-for-empty-file', props=['C04'], expect='R-REPORT-ALWAYS-SENT/report-always-sent/',
+      edits=[(MS, '\t\tif opts.Resume {\n\t\t\tinfo, err := buildResumeInfo(state)\n', '\t\tif opts.Resume && state.totalChunks > 0 {\n\t\t\tinfo, err := buildResumeInfo(state)\n')]),
+]
